@@ -1619,6 +1619,8 @@ func (d *decoderMsgpackBytes) kInterfaceNaked(f *decFnInfo) (rvn reflect.Value) 
 			} else {
 				rvn = reflect.New(bfn.rt)
 				if bfn.ext == SelfExt {
+
+					bytes = d.sideDecodeInput(bytes, d.attachState(!d.bytes))
 					sideDecode(d.hh, &d.h.sideDecPool, func(sd decoderI) { oneOffDecode(sd, rv2i(rvn), bytes, bfn.rt, true) })
 				} else {
 					bfn.ext.ReadExt(rv2i(rvn), bytes)
@@ -3943,11 +3945,12 @@ func (d *msgpackDecDriverBytes) decodeTime(clen int) (t time.Time) {
 }
 
 func (d *msgpackDecDriverBytes) DecodeExt(rv interface{}, basetype reflect.Type, xtag uint64, ext Ext) {
-	xbs, _, _, ok := d.decodeExtV(ext != nil, xtag)
+	xbs, _, state, ok := d.decodeExtV(ext != nil, xtag)
 	if !ok {
 		return
 	}
 	if ext == SelfExt {
+		xbs = d.d.sideDecodeInput(xbs, state)
 		sideDecode(d.h, &d.h.sideDecPool, func(sd decoderI) { oneOffDecode(sd, rv, xbs, basetype, true) })
 	} else {
 		ext.ReadExt(rv, xbs)
@@ -5652,6 +5655,8 @@ func (d *decoderMsgpackIO) kInterfaceNaked(f *decFnInfo) (rvn reflect.Value) {
 			} else {
 				rvn = reflect.New(bfn.rt)
 				if bfn.ext == SelfExt {
+
+					bytes = d.sideDecodeInput(bytes, d.attachState(!d.bytes))
 					sideDecode(d.hh, &d.h.sideDecPool, func(sd decoderI) { oneOffDecode(sd, rv2i(rvn), bytes, bfn.rt, true) })
 				} else {
 					bfn.ext.ReadExt(rv2i(rvn), bytes)
@@ -7976,11 +7981,12 @@ func (d *msgpackDecDriverIO) decodeTime(clen int) (t time.Time) {
 }
 
 func (d *msgpackDecDriverIO) DecodeExt(rv interface{}, basetype reflect.Type, xtag uint64, ext Ext) {
-	xbs, _, _, ok := d.decodeExtV(ext != nil, xtag)
+	xbs, _, state, ok := d.decodeExtV(ext != nil, xtag)
 	if !ok {
 		return
 	}
 	if ext == SelfExt {
+		xbs = d.d.sideDecodeInput(xbs, state)
 		sideDecode(d.h, &d.h.sideDecPool, func(sd decoderI) { oneOffDecode(sd, rv, xbs, basetype, true) })
 	} else {
 		ext.ReadExt(rv, xbs)
